@@ -548,7 +548,53 @@ def A_optax_apply_donates(tree):
   raise Unsupported('create_optimizer_from_optax.apply not found')
 
 
+def A_key_depth(factory):
+  """How many times the key stored in the new CompressionState was obtained as the FIRST component of
+  jax.random.split(...) starting from aggregator_state.rng (0 = the old key is stored again)."""
+  def emit(tree):
+    an = Analyzer(tree, factory)
+    ap = an.factory_defs['apply']
+    depth = {}
+    stored = None
+    for s in ap.body:
+      if isinstance(s, ast.Assign) and len(s.targets) == 1 and isinstance(s.targets[0], ast.Tuple) and \
+          isinstance(s.value, ast.Call) and _src(s.value.func) == 'jax.random.split' and len(s.value.args) == 1 and \
+          not s.value.keywords and all(isinstance(x, ast.Name) for x in s.targets[0].elts) and len(s.targets[0].elts) == 2:
+        a = s.value.args[0]
+        base = 0 if _src(a) == 'aggregator_state.rng' else depth.get(a.id) if isinstance(a, ast.Name) else None
+        first, second = (x.id for x in s.targets[0].elts)
+        depth.pop(second, None)
+        if base is None:
+          depth.pop(first, None)
+        else:
+          depth[first] = base + 1
+      elif isinstance(s, ast.Assign) and len(s.targets) == 1 and _src(s.targets[0]) == 'new_state':
+        v = s.value
+        if not (isinstance(v, ast.Call) and _src(v.func) == 'CompressionState' and len(v.args) == 2 and not v.keywords):
+          raise Unsupported(f'{factory}: new_state is not CompressionState(bits, key)')
+        k = v.args[1]
+        if _src(k) == 'aggregator_state.rng':
+          stored = 0
+        elif isinstance(k, ast.Name) and k.id in depth:
+          stored = depth[k.id]
+        else:
+          raise Unsupported(f'{factory}: the key stored in the new state is not on the split path of the old one')
+      elif isinstance(s, ast.Assign):
+        for tgt in ast.walk(s.targets[0]):
+          if isinstance(tgt, ast.Name):
+            depth.pop(tgt.id, None)
+    if stored is None:
+      raise Unsupported(f'{factory}: new_state = CompressionState(...) not found')
+    return (f'(* the key kept in the new state = the first component of {stored} nested jax.random.split of aggregator_state.rng *)\n'
+            f'Definition {factory}_key_depth : nat := {stored}.')
+  return emit
+
+
 PRE = 'From FV Require Import Common.Store.\n'
+
+
+QUANTIZERS = ('uniform_stochastic_quantizer', 'rotated_uniform_stochastic_quantizer', 'structured_drive_quantizer',
+              'terngrad_quantizer')
 
 
 def _mod(src, *factories):
@@ -563,7 +609,8 @@ MODULES = {
     'Gen_c10_agnostic_fed_avg': _mod(ALG + 'agnostic_fed_avg.py', 'agnostic_federated_averaging'),
     'Gen_c10_hyp_cluster': _mod(ALG + 'hyp_cluster.py', 'hyp_cluster'),
     'Gen_c10_apfl': _mod(ALG + 'apfl.py', 'adaptive_personalized_federated_learning'),
-    'Gen_c10_compression': _mod('fedjax/aggregators/compression.py', 'uniform_stochastic_quantizer',
-                                'rotated_uniform_stochastic_quantizer', 'structured_drive_quantizer', 'terngrad_quantizer'),
+    'Gen_c10_compression': {
+        'src': 'fedjax/aggregators/compression.py', 'preamble': PRE,
+        'items': [A_effects(f) for f in QUANTIZERS] + [A_key_depth(f) for f in QUANTIZERS]},
     'Gen_c10_optimizers': {'src': 'fedjax/core/optimizers.py', 'preamble': '', 'items': [A_optax_apply_donates]},
 }
